@@ -171,6 +171,10 @@ def _r1(ctx):
                 dcp = v
     dsrc = pm.find("M_c = %s.get_critical_path()" % fd.params()[2], fd.node)
     d_ok = dcp is not None and bool(dsrc) and pm.match("sum([M_x.latency_cp for M_x in %s])" % U(dsrc[0][1]["M_c"]), dcp) is not None
+    if dcp is not None and not d_ok:
+        # the sum held in a local, the path used in place, ...: compare after substituting single definitions
+        dsub = C.flow_of(fd).subst(dcp)
+        d_ok = pm.match("sum([M_x.latency_cp for M_x in %s.get_critical_path()])" % fd.params()[2], dsub) is not None
     cvcall = C.calls_to(fa.node, "combined_view")
     t_ok = bool(tcp) and bool(cvcall) and U(cvcall[0].args[1]) == "%s.get_critical_path()" % fa.params()[2]
     pair("CP total / Summary.CriticalPath", t_ok and d_ok, cv.where(),
@@ -216,9 +220,35 @@ def _r1(ctx):
         list_rec_unknown = not ok and ("['latency']" in body and "['dependencies']" in body)
     lcall = C.calls_to(fa.node, "loopcarried_dependencies")
     ok = ok and bool(lcall) and U(lcall[0].args[0]) == "%s.get_loopcarried_dependencies()" % fa.params()[2]
+    # is the iteration domain all entries of the dict?  True / False (entries can collapse or be cut) / None (not understood)
+    def domain(e, depth=0):
+        while isinstance(e, ast.Call) and isinstance(e.func, ast.Name) and e.func.id in ("sorted", "list", "reversed", "tuple") and e.args:
+            e = e.args[0]
+        if isinstance(e, ast.Call) and isinstance(e.func, ast.Attribute) and e.func.attr in ("keys", "items", "values") and not e.args:
+            e = e.func.value
+        if isinstance(e, ast.Name) and e.id == dep:
+            return True
+        if isinstance(e, ast.Subscript):
+            return False if U(e.value).startswith(("sorted(", dep)) or domain(e.value, depth + 1) else None
+        if isinstance(e, ast.Name) and depth < 2:
+            ds = [a for a in C.assigns_to(ll.node, e.id) if isinstance(a, ast.Assign)]
+            if len(ds) == 1:
+                v = ds[0].value
+                if isinstance(v, (ast.DictComp, ast.SetComp)) and len(v.generators) == 1 and domain(v.generators[0].iter, depth + 1):
+                    key = v.key if isinstance(v, ast.DictComp) else v.elt
+                    tgt = v.generators[0].target
+                    same = U(key) == U(tgt) or (isinstance(tgt, ast.Tuple) and U(key) == U(tgt.elts[0]))
+                    return True if same else False      # keyed by something else: entries with the same key collapse
+                if isinstance(v, ast.ListComp) and len(v.generators) == 1 and not v.generators[0].ifs:
+                    return domain(v.generators[0].iter, depth + 1)
+                return domain(v, depth + 1)
+        return None
+    dom = domain(loops[0].iter) if len(loops) == 1 else None
+    if dom is False:
+        ok = False
     pair("LCD list / every loop-carried dependency with latency and member lines", ok, ll.where(),
          "the list must iterate all keys and print each entry's latency and member line numbers",
-         recognised=len(loops) == 1 and (dep in U(loops[0].iter)) and not list_rec_unknown)
+         recognised=len(loops) == 1 and dom is not None and not (dom and list_rec_unknown))
 
 
 def _r2(ctx):
